@@ -109,12 +109,15 @@ func (g *SG) Prologue() []Stmt {
 		&Assign{Target: "vh", Op: "=", E: &Ref{"H.I64"}},
 		&Assign{Target: "ve", Op: ":=", E: &Elem{Cont: "VS", KeyInt: is(1)}},
 		&Assign{Target: "vn", Op: "=", E: &Ref{"H.In.X"}},
+		// ... and to the value of a whole array-typed field (arrays are values, not references)
+		&Assign{Target: "vw", Op: "=", E: &Ref{"H.AW"}},
 	}
 }
 
 // Epilogue observes the final locals.
 func (g *SG) Epilogue() []Stmt {
-	return []Stmt{g.tv(&Ref{"va"}), g.tv(&Ref{"vb"}), g.tv(&Ref{"vc"}), g.tv(&Ref{"vs"}), g.tv(&Ref{"vf"}), g.tv(&Ref{"vt"}), g.tv(&Ref{"vh"}), g.tv(&Ref{"ve"}), g.tv(&Ref{"vn"})}
+	return []Stmt{g.tv(&Ref{"va"}), g.tv(&Ref{"vb"}), g.tv(&Ref{"vc"}), g.tv(&Ref{"vs"}), g.tv(&Ref{"vf"}), g.tv(&Ref{"vt"}), g.tv(&Ref{"vh"}), g.tv(&Ref{"ve"}), g.tv(&Ref{"vn"}),
+		g.tv(&Elem{Cont: "vw", KeyInt: is(0)}), g.tv(&Elem{Cont: "vw", KeyInt: is(1)}), g.tv(&Elem{Cont: "vw", KeyInt: is(2)}), g.tv(&Ref{"vw"})}
 }
 
 // Block generates a block; inLoop says whether break/continue are meaningful here.
@@ -166,7 +169,19 @@ func (g *SG) simple() Stmt {
 		k := int64(r.Intn(4))
 		return &Assign{Elem: &Elem{Cont: "VS", KeyInt: &k}, Op: []string{"=", "+=", "-="}[r.Intn(3)], E: g.smallInt(1)}
 	default:
-		switch r.Intn(5) {
+		switch r.Intn(7) {
+		case 5:
+			// store into an element of the array field a local was bound to
+			g.Stats["store_into_array_field"]++
+			k := int64(r.Intn(3))
+			return &Assign{Elem: &Elem{Cont: "H.AW", KeyInt: &k}, Op: []string{"=", "+=", "*="}[r.Intn(3)], E: ilit(int64(r.Intn(9) + 2))}
+		case 6:
+			k := int64(r.Intn(3))
+			if r.Intn(4) == 0 {
+				g.Stats["rebind_from_array_field"]++
+				return &Assign{Target: "vw", Op: "=", E: &Ref{"H.AW"}}
+			}
+			return g.tv(&Elem{Cont: "vw", KeyInt: &k})
 		case 0:
 			// compound update of a local that was bound to a field value: the field stays as it is
 			g.Stats["compound_on_field_bound_local"]++
